@@ -341,7 +341,12 @@ def _canon(fn):
     f = c.visit(f)
     f.name = '_'
     f.decorator_list = []
-    return ast.dump(f)
+    # the canonical text must not depend on the interpreter that computed it (ast.dump gained fields in Python 3.12; the baseline
+    # shapes were once written by another interpreter than the one running the checks, which silently disabled the renaming rule)
+    try:
+        return ast.unparse(ast.fix_missing_locations(f))
+    except Exception:
+        return ast.dump(f)
 
 
 def shape_of(mod):
